@@ -358,6 +358,10 @@ let () =
          let fixed = not (starts_with "ok:viewerr" obs) in
          if fixed then q := { !q with q_uint_kind = true };
          emit id obs (if fixed then "ok" else "fail:bind_uint_kind_overflow")
+       | "ptruint" ->
+         let fixed = starts_with "ok:" obs in
+         if fixed then q := { !q with q_ptr_uint = true };
+         emit id obs (if fixed then "ok" else "fail:bind_nullable_uint_panic")
        | "rewrap" ->
          if obs = "ok" then q := { !q with q_reuse_registered = true };
          emit id obs (if obs = "ok" then "ok" else "fail:bind_rewrap_duplicate_type_panic")
@@ -377,17 +381,19 @@ let () =
             | Ok g -> "ok:" ^ string_of_shape s ^ "|" ^ string_of_gv g ^ "|" ^ view_str (view !q LType t s g)
             | Err e -> berr_str e)) in
       let verdict =
-        if starts_with "ok:" obs then
-          (match String.split_on_char '|' (after "ok:" obs) with
-           | [_; _; view] ->
-             if view = dmtext then "ok" else
-               (match infer_gotype t with
-                | Ok s -> (match asm repaired LType narrow32 t s (zero_of s) false d with
-                    | Err XRange -> "fail:bind_int_narrowing"
-                    | _ -> "fail:gotype_build")
-                | Err _ -> "fail:gotype_build")
-           | _ -> "fail:malformed_obs")
-        else "fail:gotype_build" in
+        (match infer_gotype t with
+         | Err _ -> if starts_with "ok:" obs then "fail:gotype_build" else "ok"
+         | Ok s ->
+           let fit = fits repaired LType narrow32 t s d in
+           if starts_with "ok:" obs then
+             (match String.split_on_char '|' (after "ok:" obs) with
+              | [_; _; view] ->
+                if view = dmtext then "ok" else
+                  (match asm repaired LType narrow32 t s (zero_of s) false d with
+                   | Err XRange -> "fail:bind_int_narrowing"
+                   | _ -> if fit then "fail:gotype_build" else "ok")
+              | _ -> "fail:malformed_obs")
+           else if fit then "fail:gotype_build" else "ok") in
       emit id model verdict
     | [id; "wrap"; _; shape; sty; gvtext; obs] ->
       let s = shape_of_string shape and t = sty_of_string sty and g = gv_of_string gvtext in
